@@ -4,12 +4,16 @@ mod c13;
 mod c14;
 mod c15;
 mod c20;
+mod container;
+mod indep;
 mod mem;
 mod util;
 
 fn main() {
 	// panics in code under test are data; keep stderr quiet
-	std::panic::set_hook(Box::new(|_| {}));
+	if std::env::var("VERIF_PANIC_VERBOSE").is_err() {
+		std::panic::set_hook(Box::new(|_| {}));
+	}
 	let args: Vec<String> = std::env::args().collect();
 	if args.len() < 3 {
 		eprintln!("usage: vharness replay <ID> <cases.ndjson> <trace.ndjson> | record <ID> <trace.ndjson>");
@@ -22,6 +26,8 @@ fn main() {
 		("stress", "C13") => c13::stress(&args[3], &args[4], seed, thorough),
 		("replay", "C14") => c14::replay(&args[3], &args[4]),
 		("record", "C14") => c14::record(&args[3], seed, thorough),
+		("replay", "CONTAINER") => container::replay(&args[3], &args[4], &args[5], &args[6]),
+		("record", "CONTAINER") => container::record(&args[3], &args[4], seed, thorough, &args[5]),
 		("replay", "C15") => c15::replay(&args[3], &args[4]),
 		("record", "C15") => c15::record(&args[3], seed, thorough),
 		("replay", "C20") => c20::replay(&args[3], &args[4]),
